@@ -170,3 +170,43 @@ def report(ctx, mismatches, limit=5):
                       dict(case_id=m["id"], source=m["src"].decode("latin1"), text=m["text"].decode("latin1"),
                            source_hex=m["src"].hex(), text_hex=m["text"].hex(),
                            implementation=m["impl"], model_and_spec=m["model"]), key=key)
+
+
+def pred_failures(cases, impl, model, pred):
+    """cases whose implementation result fails an executable property predicate run by the Lean driver"""
+    out = []
+    n_eval = 0
+    for cid, ml in model.items():
+        f = C.fields(ml)
+        p = f.get("PRED")
+        if not p or p == "na":
+            continue
+        kv = dict(x.split("=") for x in p.split(" ") if "=" in x)
+        if pred not in kv:
+            continue
+        n_eval += 1
+        if kv[pred] == "F":
+            parts = cases[cid].split("\t")
+            src, text = C.unhex(parts[1]), C.unhex(parts[2])
+            ires = C.fields(impl.get(cid, "")).get("RES", "?")
+            out.append(dict(id=cid, src=src, text=text, impl=ires, model=f.get("RES", "?"),
+                            what=f"the implementation's result fails the executable predicate Spec.{pred}"))
+    return out, n_eval
+
+
+def standard_run(ctx, genprop, fields=ALL_FIELDS, what="matches differ from the model", preds=()):
+    cases, impl, model, stats = gen_and_run(ctx, genprop)
+    mism, counters, samples = compare_run(ctx, cases, impl, model, fields, what)
+    for p in preds:
+        pf, n = pred_failures(cases, impl, model, p)
+        counters["pred_" + p + "_evaluated"] = n
+        counters["pred_" + p + "_failed"] = len(pf)
+        mism = pf + mism
+    ctx.coverage.update(evaluations=counters["evaluations"], distinct_nontrivial=counters["with_matches"],
+                        rule="generated (source, text) pairs from the seeded type-directed generator plus corpus; "
+                             "non-trivial = the model reports at least one match; distinct = distinct (source, text) pairs",
+                        samples=samples, counters=counters, generator=stats,
+                        structural_agreement=(counters["code_drift"] == 0),
+                        traces_validated_against_impl=counters["compared"])
+    report(ctx, mism)
+    return cases, impl, model, counters
